@@ -56,8 +56,15 @@ struct HdrSession {
                 Slot *so = g_arena.alloc((size_t) ao, (plan.geti("oplace") & 1) ? PLACE_START : PLACE_END, "hdr_out", fill + 3, 1);
                 // name/comment buffers: exact size (string + NUL) or with slack after the NUL
                 uint32_t nslack = (uint32_t) ((uint64_t) plan.geti("nslack") % 5), cslack = (uint32_t) ((uint64_t) plan.geti("cslack") % 5);
-                Slot *sn = f.has_name ? g_arena.alloc(f.name.size() + 1 + nslack, place, "name_buf", 5, 1) : nullptr;
-                Slot *sc = f.has_comment ? g_arena.alloc(f.comment.size() + 1 + cslack, place, "comment_buf", 6, 1) : nullptr;
+                // "unterminated" variant: the declared name / comment buffer (possibly 0 bytes long) ends before any NUL.  That is outside
+                // the property's domain for the bytes written (C19 assumes NUL-terminated strings), so only C05's clause is judged:
+                // nothing beyond pointer + declared length may be read.
+                int unterm = (int) (plan.geti("unterm") & 3);
+                size_t nk = (unterm & 1) && f.has_name ? (size_t) ((uint64_t) plan.geti("untermk") % (f.name.size() + 1)) : 0;
+                size_t ck = (unterm & 2) && f.has_comment ? (size_t) ((uint64_t) (plan.geti("untermk") >> 8) % (f.comment.size() + 1)) : 0;
+                bool nun = (unterm & 1) && f.has_name, cun = (unterm & 2) && f.has_comment;
+                Slot *sn = f.has_name ? g_arena.alloc(nun ? nk : f.name.size() + 1 + nslack, nun ? PLACE_END : place, "name_buf", 5, 1) : nullptr;
+                Slot *sc = f.has_comment ? g_arena.alloc(cun ? ck : f.comment.size() + 1 + cslack, cun ? PLACE_END : place, "comment_buf", 6, 1) : nullptr;
                 Slot *sx = f.has_extra ? g_arena.alloc(f.extra.size(), place, "extra_buf", 7, 1) : nullptr;
                 if (!ss || !sh || !so || (f.has_name && !sn) || (f.has_comment && !sc) || (f.has_extra && !sx))
                         return;
@@ -71,14 +78,33 @@ struct HdrSession {
                 gh->os = f.os;
                 gh->hcrc = f.hcrc ? 1 + (uint32_t) ((uint64_t) plan.geti("hcrcval") % 1000) : 0;
                 if (sn) {
-                        memcpy(sn->data, f.name.c_str(), f.name.size() + 1);
+                        memcpy(sn->data, f.name.c_str(), nun ? nk : f.name.size() + 1);
                         gh->name = (char *) sn->data;
                         gh->name_buf_len = (uint32_t) sn->len;
                 }
                 if (sc) {
-                        memcpy(sc->data, f.comment.c_str(), f.comment.size() + 1);
+                        memcpy(sc->data, f.comment.c_str(), cun ? ck : f.comment.size() + 1);
                         gh->comment = (char *) sc->data;
                         gh->comment_buf_len = (uint32_t) sc->len;
+                }
+                if (nun || cun) {
+                        // enough room for whatever the writer decides to emit; judged for memory safety only
+                        Slot *so2 = g_arena.alloc(want.size() + 16, PLACE_END, "hdr_out", fill + 3, 1);
+                        if (!so2)
+                                return;
+                        st->next_out = so2->data;
+                        st->avail_out = (uint32_t) so2->len;
+                        uint32_t r2 = 0;
+                        h.calls++;
+                        if (GUARDED(gc, r2 = isal_write_gzip_header(st, gh))) {
+                                report_fault(rr, h, gc.fi, strf("isal_write_gzip_header (name_buf_len %u, comment_buf_len %u, no NUL inside the declared length)", gh->name_buf_len, gh->comment_buf_len).c_str());
+                                return;
+                        }
+                        h.rec("wgz_unterm", { (int64_t) nk, (int64_t) ck, r2 });
+                        COUNT("fault.header_string_without_nul_in_declared_length");
+                        if (!g_arena.canary_ok(so2) || !g_arena.canary_ok(ss) || !g_arena.canary_ok(sh))
+                                rr.fail("C05.canary", "isal_write_gzip_header changed bytes outside its declared buffers");
+                        return;
                 }
                 if (sx) {
                         memcpy(sx->data, f.extra.data(), f.extra.size());
@@ -611,6 +637,9 @@ static void exec_hdr(const Json &plan, RunResult &rr, Hist &h)
 {
         HdrSession s(plan, rr, h);
         s.run();
+        // a header function that reads or writes outside the buffers its arguments declare fails C05 and C19's own last clause alike
+        if (rr.violated() && rr.oracle.compare(0, 4, "C05.") == 0)
+                rr.alt = "C19";
 }
 
 static Json gen_hdr(Rng &r0, const std::string &focus, int tier)
@@ -646,6 +675,7 @@ static Json gen_hdr(Rng &r0, const std::string &focus, int tier)
                 bf.push(q == 0 ? -1 : q < 4 ? (int64_t) r.below(12) : q < 6 ? (int64_t) r.logsize(k == 2 ? 66000 : 3200) : (int64_t) (k == 2 ? 66000 : 3200));
         }
         p.set("bufs", bf).set("grow", (int) (r.chance(1, 2) ? r.below(4) : r.below(600))).set("ps", r.u64() >> 20).set("tailbytes", (int) r.below(40));
+        p.set("unterm", r.chance(1, 8) ? (int) (1 + r.below(3)) : 0).set("untermk", r.chance(1, 2) ? 0 : (int64_t) r.below(1 << 16));
         p.set("corrupt", (int) r.below(8)).set("trunc", r.chance(1, 8) ? (int64_t) (1 + r.below(4000)) : 0).set("bigextra", (int) r.chance(1, 6));
         Json mem = Json::obj();
         mem.set("place", (int) r.below(2)).set("fill", r.u64() >> 24).set("skip", r.chance(1, 2) ? 0 : (int) r.below(4096));
